@@ -699,6 +699,7 @@ fn main() {
 
     // ---- evaluate
     let mut link_cache: HashMap<(String, bool, bool), (LinkClass, Option<Link>)> = HashMap::new();
+    let mut seen_cells: std::collections::BTreeSet<(String, String)> = Default::default();
     let mut exp_cache: HashMap<(Cmd, String, String, String, bool, bool, String, bool), Expect> = HashMap::new();
     for (c, o) in cases.iter().zip(outs.iter()) {
         let desc = c.text();
@@ -745,6 +746,7 @@ fn main() {
                             Err(e) => cell_err = Some(e),
                         }
                     }
+                    if let Some(sy) = &sym { for txt in tab.cells.values() { seen_cells.insert((sy.clone(), txt.clone())); } }
                     if let Some(e) = &cell_err {
                         sink.oracle(false, "every printed cell reads as a group rank/torsion text", &desc, e);
                     }
@@ -860,7 +862,31 @@ fn main() {
         sink.oracle(ok, "a printed cell determines the group (rank and torsion multiset)", &req, &format!("{txt} read back as {:?}", back));
         sink.case(req.trim_end(), &hex(&txt), rank > 0 || !tors.is_empty());
         sink.count("cell");
+        if let Ok((_, g)) = &back {
+            sink.case(&format!("readcell {} {}", hex("Z"), hex(&txt)), &runs_text(g), rank > 0 || !tors.is_empty());
+        }
+    }
+
+    // ---- every distinct cell text of the real tables, read by the harness's reader and by the verified reader
+    for (sym, txt) in &seen_cells {
+        let req = format!("readcell {} {}", hex(sym), hex(txt));
+        let reply = match parse_cell(txt) { Ok((_, g)) => runs_text(&g), Err(_) => "unreadable".into() };
+        sink.case(&req, &reply, true);
+        sink.count("readcell.real");
     }
 
     sink.finish();
+}
+
+/// `<rank> <tor-hex>:<multiplicity> …` (torsion texts sorted, equal ones grouped)
+fn runs_text(g: &Group) -> String {
+    let mut out = vec![g.rank.to_string()];
+    let mut k = 0;
+    while k < g.tors.len() {
+        let mut m = k;
+        while m < g.tors.len() && g.tors[m] == g.tors[k] { m += 1 }
+        out.push(format!("{}:{}", hex(&g.tors[k]), m - k));
+        k = m;
+    }
+    out.join(" ")
 }
